@@ -478,7 +478,7 @@ def _check_templates(check, an: Analysis):
         if isinstance(expr, ast.Name):
             for target, source in enclosing_loops(fn, site):
                 if isinstance(target, ast.Name) and target.id == expr.id:
-                    src = rules.expand_alias(source, fn)
+                    src = _rest_form(rules.expand_alias(source, fn))
                     if src == names_param:
                         return 'all'
                     if src == '%s[1:]' % names_param:
@@ -535,9 +535,9 @@ def _check_templates(check, an: Analysis):
         sources = set()
         for node in ast.walk(fn.node):
             if isinstance(node, ast.For):
-                sources.add(rules.expand_alias(node.iter, fn))
+                sources.add(_rest_form(rules.expand_alias(node.iter, fn)))
             elif isinstance(node, ast.comprehension):
-                sources.add(rules.expand_alias(node.iter, fn))
+                sources.add(_rest_form(rules.expand_alias(node.iter, fn)))
         if maker == '__comparison_op__':
             ok = sources == {'%s[1:]' % names_param} and \
                 coverage.get(maker) == {'first', 'rest'}
@@ -545,6 +545,20 @@ def _check_templates(check, an: Analysis):
             ok = sources == {names_param}
         check.instance('T', 'template:%s:all-fields' % maker, ok, where_fn(fn),
                        'generated code runs over all field names: %s' % sorted(sources))
+
+
+def _rest_form(text: str) -> str:
+    """``islice(x, 1, None)`` walks what ``x[1:]`` holds"""
+    try:
+        node = ast.parse(text, mode='eval').body
+    except SyntaxError:
+        return text
+    if isinstance(node, ast.Call) and ast.unparse(node.func).split('.')[-1] == 'islice' and \
+            len(node.args) == 3 and not node.keywords and \
+            isinstance(node.args[1], ast.Constant) and node.args[1].value == 1 and \
+            isinstance(node.args[2], ast.Constant) and node.args[2].value is None:
+        return '%s[1:]' % ast.unparse(node.args[0])
+    return text
 
 
 def _initial_value(an: Analysis, cls_qn: str, attr: str):
